@@ -244,7 +244,7 @@ func (e *Exec) checkIterationErrors(st *State, li *loopInfo, ctx *Ctx) {
 		if !all && !contains(c.Propagates, site) {
 			continue
 		}
-		e.emit(st, "post", fmt.Sprintf("loop[%s].propagates[%s]", li.key, site), "(not (isErr "+et+"))", c.PropagatesTags, li.pos,
+		e.emit(st, "prop", fmt.Sprintf("loop[%s].propagates[%s]", li.key, site), "(not (isErr "+et+"))", c.PropagatesTags, li.pos,
 			"an iteration completes only if "+site+" succeeded (its failure must end "+e.fi.Name+")")
 	}
 }
